@@ -17,8 +17,9 @@ construction: they are regression obligations, not evidence about the code. The 
 panic there is the harness (every case under catch_unwind with overflow checks on). The content of the first part is
 `int_arith_in_range` / `negate_exact` (no silent wrap-around: an INT result is the exact result, within 64 bits),
 `div_by_zero_is_error`, `subscript_total`. All model functions are total (structural recursion: termination is checked
-by Lean). `oracleMissing` is answered only for external facts a case did not ship (a literal / regex / case mapping
-of a computed text, `now()`); leap-second arithmetic and STDDEV of INTERVAL are modelled (the one `expect` chrono's
+by Lean). `oracleMissing` is answered only for external facts a case did not ship (a regex verdict / case mapping
+of a computed text) and for `now()` — exactly the four sites of `function_call_skipped_iff` (third part of this file);
+leap-second arithmetic and STDDEV of INTERVAL are modelled (the one `expect` chrono's
 `duration_trunc` contains is proved unreachable: `Lemmas/FuncLeap.lean` `dateTrunc_shift_in_range`).
 What no executable model exhibits (panics inside regex / serde_json / chrono, stack exhaustion, allocation
 failure, hangs, non-UTC zones) is covered by the harness runs only (see DESIGN.md section 13).
